@@ -226,7 +226,11 @@ def gen_badpages(rng, bad, good, maxops):
 
 # a corrupted size field may ask for an absurd allocation: that is C03's subject; here the
 # allocator just fails (the library then takes its out-of-memory exit, which must be clean too)
-ASAN_ENV = {"ASAN_OPTIONS": "detect_leaks=1:abort_on_error=0:exitcode=97:allocator_may_return_null=1"}
+# max_allocation_size_mb: a corrupted size field may ask fcache_get_chunk for gigabytes; malloc
+# then "succeeds" and ASan spends the case's 8 s watchdog poisoning shadow memory - refuse such
+# requests like a loaded system would (the library must then report the failure)
+ASAN_ENV = {"ASAN_OPTIONS": "detect_leaks=1:abort_on_error=0:exitcode=97:allocator_may_return_null=1:"
+                            "max_allocation_size_mb=512"}
 
 
 def check(run):
@@ -304,6 +308,34 @@ def check(run):
     for i in range(150 if quick else 3000):
         ops = gen_badpages(run.rng, badaddrs, goodaddrs, 18 if quick else 40)
         seqs.append(("seq %s : %s" % (badpath, " ".join(ops)), [badpath], ops))
+    # the same on LKCD (gzip): over-long streams with and without compressed input left over
+    try:
+        lbad, lbadaddrs, lgoodaddrs = resdumps.lkcd_bad(d)
+        for i in range(40 if quick else 600):
+            ops = gen_badpages(run.rng, lbadaddrs, lgoodaddrs, 14 if quick else 40)
+            seqs.append(("seq %s : %s" % (lbad, " ".join(ops)), [lbad], ops))
+        # every bad page of both files once, alone: per-history accounting names the page
+        for path_, addrs in ((badpath, badaddrs), (lbad, lbadaddrs)):
+            for a in addrs:
+                for pol in (0, 2):
+                    ops = ["N0", "Y0:%d" % pol, "O0:0", "R0:1:%#x:4096" % a, "R0:1:%#x:64" % (a + 8), "Z0"]
+                    seqs.append(("seq %s : %s" % (path_, " ".join(ops)), [path_], ops))
+    except RuntimeError as e:
+        run.violation("machinery", "cannot build the LKCD dump with bad pages: %s" % e, {}, found_input=False)
+    # s390x: VMCOREINFO found through the lowcore's os_info pointer when the OS type is set
+    # (successful path; whatever it allocates must be gone after kdump_free), repeated and cloned
+    s390 = resdumps.elf_s390x_osinfo(d)
+    for i in range(12 if quick else 120):
+        ops = ["N0", "O0:0", "J0:2"]
+        r = run.rng.random()
+        if r < 0.3:
+            ops += ["C0:1:%d" % run.rng.randrange(2), "J1:2", "G1:0:2", "I1"]
+        elif r < 0.5:
+            ops += ["J0:3", "J0:2", "G0:0:2"]            # xen, then linux again: the scan runs twice
+        elif r < 0.7:
+            ops += ["O0:0", "J0:2", "V0"]
+        ops += ["R0:1:0x2000:64", "I0", "Z%d" % run.rng.randrange(6)]
+        seqs.append(("seq %s : %s" % (s390, " ".join(ops)), [s390], ops))
     # re-open: every ordered pair of files, with and without clones, with and without the first
     # format's page-map bitmap still held by the application
     allfiles = [dumps[n] for n in names]
